@@ -3,7 +3,7 @@ import ast
 
 from sa.cfg import cfg_of
 from sa.program import norm, own_nodes, const_str
-from sa.util import cfg_node_of, derives_from, enclosing_loops, guards_at, self_calls_in
+from sa.util import assignments_to, cfg_node_of, derives_from, enclosing_loops, guards_at, self_calls_in
 from . import shared
 from .roles import CONFIG_ATTR, VIEWS, roles
 
@@ -187,3 +187,45 @@ def run(ctx):
     ok = any("get_state_by_id" in norm(x) for r_ in restores for x in ast.walk(r_)) or any("get_state_by_id" in norm(a) for a in own_nodes(fs.node) if isinstance(a, ast.ListComp))
     c.ob("R5", ok, fs, "history-ids-resolved", "persisted history ids are resolved back to state nodes" if ok else
          "restored history holds raw ids instead of state nodes", fs.node)
+    # ---- R12 the default target of a history state is resolved relative to the history state itself -----------------------------
+    # resolve_target_state(target, reference) reads a relative spelling ('.c2', a bare key) from the node that *declares* the target;
+    # for a history default that is the history pseudo-state (a child of the owner), the same way a transition's target is read from
+    # its source.  The reference must therefore arrive at the resolver unchanged: the history node the target string was read from.
+    from sa.util import expand_names as _en12
+    rh12 = p.method("BaseInterpreter", "_resolve_history_target")
+    hn = rh12.params[1] if len(rh12.params) > 1 else None
+    sites = []           # (function holding the resolver call, resolver call, name of the history node there or None)
+    for x in own_nodes(rh12.node):
+        if isinstance(x, ast.Call) and norm(x.func).endswith("resolve_target_state"):
+            sites.append((rh12, x, hn, x))
+    for call in [x for x in own_nodes(rh12.node) if isinstance(x, ast.Call) and isinstance(x.func, ast.Attribute) and norm(x.func.value) == "self"]:
+        h = p.cls("BaseInterpreter").methods.get(call.func.attr)
+        if h is None or h.qualname == rh12.qualname:
+            continue
+        inner = [y for y in own_nodes(h.node) if isinstance(y, ast.Call) and norm(y.func).endswith("resolve_target_state")]
+        if not inner:
+            continue
+        # which parameter of the helper receives the history node
+        passed = None
+        for i, a in enumerate(call.args):
+            if isinstance(_en12(rh12, a), ast.Name) and _en12(rh12, a).id == hn and i + 1 < len(h.params):
+                passed = h.params[i + 1]
+        for k in call.keywords:
+            if k.arg and isinstance(_en12(rh12, k.value), ast.Name) and _en12(rh12, k.value).id == hn:
+                passed = k.arg
+        for y in inner:
+            sites.append((h, y, passed, call))
+    if c.expect("R12", "resolutions of a history state's default target", len(sites), 1, rh12,
+                "_resolve_history_target no longer resolves the declared default target of an unvisited history state: the default is ignored"):
+        for fn12, y, node_name, site in sites:
+            ref = y.args[1] if len(y.args) > 1 else next((k.value for k in y.keywords if k.arg in ("reference", "reference_state", "source")), None)
+            ref_e = _en12(fn12, ref) if ref is not None else None
+            reass = [a_ for a_ in assignments_to(fn12, node_name)] if node_name else []
+            ok = node_name is not None and isinstance(ref_e, ast.Name) and ref_e.id == node_name and not reass
+            c.ob("R12", ok, fn12, "history-default-resolved-from-history-node",
+                 "the default target is resolved with the history pseudo-state as the reference node" if ok else
+                 f"'{norm(y)}' resolves a history state's default target from '{norm(ref) if ref is not None else '?'}' instead of the history node that declares it: "
+                 f"a relative spelling ('.child', a sibling key) is looked up one level off and the default is ignored or lands in an unrelated state", y)
+        tgt_ok = any("target_str" in norm(_en12(rh12, (s_[3].args[0] if s_[3].args else s_[3]))) and (hn or "") in norm(_en12(rh12, s_[3].args[0] if s_[3].args else s_[3])) for s_ in sites)
+        c.ob("R12", tgt_ok, rh12, "history-default-read-from-history-node", "the default target string is the history node's own target" if tgt_ok else
+             "the string resolved as the default target is no longer the history node's declared target", rh12.node)
